@@ -53,12 +53,14 @@ type RuleStat struct {
 
 // Ctx is the loaded program plus the obligation log.
 type Ctx struct {
-	lexTabs    *lexTables // cached lexer tables (rules_tab2.go)
-	lexTabsErr error
-	globalTabs map[*ssa.Global]fval // immutable package-level tables seen by the folder (fold.go)
-	wm         *writerModel         // lazily built model of midix.MIDIWriter (emission.go)
-	RepoDir    string
-	Overlay    map[string][]byte // absolute path -> content (Go and non-Go)
+	extendsWalks   []*ssa.Function // loops that walk the chord table's extends links (loopmeasure.go)
+	extendsChecked bool
+	lexTabs        *lexTables // cached lexer tables (rules_tab2.go)
+	lexTabsErr     error
+	globalTabs     map[*ssa.Global]fval // immutable package-level tables seen by the folder (fold.go)
+	wm             *writerModel         // lazily built model of midix.MIDIWriter (emission.go)
+	RepoDir        string
+	Overlay        map[string][]byte // absolute path -> content (Go and non-Go)
 
 	Fset    *token.FileSet
 	Pkgs    map[string]*packages.Package // repo packages by import path
